@@ -81,7 +81,7 @@ opkinds! {
     DeScripted = "de_scripted",       // [len_idx, count, hint0, running, flags]
     DeReal = "de_real",               // [len_idx, delta, format, cut, corrupt]
     // self-contained operations on arrays of larger-than-a-page elements
-    WideOp = "wide",                  // [which(0..9), len(0..7 -> 0,1,2,3,5,8,17), delta, schedule seed, schedule length]
+    WideOp = "wide",                  // [which(0..11), len(0..7 -> 0,1,2,3,5,8,17), delta, schedule seed, schedule length]
 }
 
 pub const N_ARGS: usize = 5;
